@@ -328,6 +328,35 @@ ARG_CASES = [
 ]
 
 
+_TET = [(0, 0, 0), (1, 0, 0), (0, 1, 0), (0, 0, 1)]
+_FACES = [(0, 2, 1), (0, 1, 3), (0, 3, 2), (1, 2, 3)]
+
+
+def _inout(magpy, which):
+    import warnings
+
+    with warnings.catch_warnings():
+        warnings.simplefilter("ignore")
+        src = magpy.magnet.Tetrahedron(vertices=_TET, polarization=(0, 0, 1)) if which == "tetra" else \
+            magpy.magnet.TriangularMesh(vertices=_TET, faces=_FACES, polarization=(0, 0, 1))
+        try:
+            return "J = polarization (read as 'auto')" if src.getJ((0.1, 0.1, 0.1), in_out="bogus")[2] == 1 else "J = 0 (read as 'outside')"
+        except Exception as e:  # noqa: BLE001
+            return "Foreign:" + type(e).__name__
+
+
+def _children_after(magpy, Bad):
+    a, b = magpy.Sensor(), magpy.Sensor()
+    c = magpy.Collection(a, b)
+    try:
+        c.children = [a, 1]
+        return "accepted"
+    except Bad:
+        return f"BadUserInput, {len(c.children)} children left, a.parent is {'c' if a.parent is c else a.parent}"
+    except Exception as e:  # noqa: BLE001
+        return "Foreign:" + type(e).__name__
+
+
 def observe(magpy, Bad):
     """behaviour that is NOT counted as a violation (pinned by tests, or accepted beyond the documented format): what the real code does
     now, so that a change shows in the evidence"""
@@ -360,6 +389,23 @@ def observe(magpy, Bad):
         "Cuboid(dimension=(1, nan, 3))": kind(lambda: magpy.magnet.Cuboid(dimension=(1, float("nan"), 3), polarization=(0, 0, 1))),
         "CylinderSegment(dimension=(1, 2, 1, nan, 90))": kind(lambda: magpy.magnet.CylinderSegment(dimension=(1, 2, 1, float("nan"), 90), polarization=(0, 0, 1))),
         "Sensor(position=(nan, 0, 0))": kind(lambda: S(position=(float("nan"), 0, 0))),
+        # call arguments nothing validates, or whose refusal is a foreign error (modelled: Model/CallArgs.lean, Props/C17b.lean; `callargs` stream)
+        "Tetrahedron.getJ(in_out='bogus') at an inside point -> polarization?": _inout(magpy, "tetra"),
+        "TriangularMesh.getJ(in_out='bogus') at the same point -> polarization?": _inout(magpy, "mesh"),
+        "getB(in_out=np.array([1, 2]))": kind(lambda: magpy.magnet.Tetrahedron(vertices=_TET, polarization=(0, 0, 1)).getB((1, 2, 3), in_out=np.array([1, 2]))),
+        "magpy.getB(sumup='no') (taken as True)": kind(lambda: magpy.getB(d, (1, 2, 3), sumup="no")),
+        "getB(squeeze=np.array([1, 2]))": kind(lambda: d.getB((1, 2, 3), squeeze=np.array([1, 2]))),
+        "TriangularMesh(check_open=1) (accepted, acts as 'ignore')": kind(lambda: magpy.magnet.TriangularMesh(vertices=_TET, faces=_FACES, polarization=(0, 0, 1), check_open=1)),
+        "TriangularMesh(check_open='bad') [docstring promises ValueError]": kind(lambda: magpy.magnet.TriangularMesh(vertices=_TET, faces=_FACES, polarization=(0, 0, 1), check_open="bad")),
+        "Sensor(style=5) (constructed; fails at first .style access)": kind(lambda: S(style=5)),
+        "Sensor(style=5).style": kind(lambda: S(style=5).style),
+        "Sensor(style=Sensor().style).style (setter accepts the same object)": kind(lambda: S(style=S().style).style),
+        "Sensor().style = 5": kind(lambda: setattr(S(), "style", 5)),
+        "Sensor().style = {'opacity': 5} [assert-based validation]": kind(lambda: setattr(S(), "style", {"opacity": 5})),
+        "CustomSource(field_func=dict) [inspect cannot read the signature]": kind(lambda: magpy.misc.CustomSource(field_func=dict)),
+        "Cuboid().field_func = f [read-only attribute]": kind(lambda: setattr(magpy.magnet.Cuboid(), "field_func", None)),
+        "getB(pixel_agg='ndim') (accepted by the check, TypeError inside getBH_level2)": kind(lambda: d.getB(S(pixel=[(1, 2, 3), (2, 3, 4)]), pixel_agg="ndim")),
+        "Collection(a, b).children = [a, 1] -> rejected; children afterwards": _children_after(magpy, Bad),
         # same coercion as the repaired make_float_array, outside attribute assignment
         "getB(observers=(1, None, 3))": kind(lambda: d.getB((1, None, 3))),
         "getB(observers=(1, '2', 3))": kind(lambda: d.getB((1, "2", 3))),
